@@ -2,8 +2,8 @@
 // ESNext (nothing lowered) and walks the AST by reflection, reporting which post-ES5 syntax features
 // occur. It does not share code with the lowering passes, so it can judge their output.
 //
-//   hscan  (stdin: JSON lines {"id":n,"code":"...","target":"es2017","supported":{"arrow":false}})
-//          (stdout: JSON lines {"id":n,"features":[...],"violations":[...],"error":"..."})
+//	hscan  (stdin: JSON lines {"id":n,"code":"...","target":"es2017","supported":{"arrow":false}})
+//	       (stdout: JSON lines {"id":n,"features":[...],"violations":[...],"error":"..."})
 package main
 
 import (
@@ -312,6 +312,19 @@ func main() {
 			var unsupported compat.JSFeature
 			if parts, ok := targets[r.Target]; ok && parts != nil {
 				unsupported = compat.UnsupportedJSFeatures(map[compat.Engine]compat.Semver{compat.ES: {Parts: parts}})
+			} else if strings.HasPrefix(r.Target, "engine=") {
+				// engine=chrome:80
+				kv := strings.SplitN(r.Target[7:], ":", 2)
+				engines := map[string]compat.Engine{"chrome": compat.Chrome, "firefox": compat.Firefox, "safari": compat.Safari, "node": compat.Node, "edge": compat.Edge, "ios": compat.IOS, "opera": compat.Opera}
+				if e, ok := engines[kv[0]]; ok && len(kv) == 2 {
+					parts := []int{}
+					for _, x := range strings.Split(kv[1], ".") {
+						n := 0
+						fmt.Sscan(x, &n)
+						parts = append(parts, n)
+					}
+					unsupported = compat.UnsupportedJSFeatures(map[compat.Engine]compat.Semver{e: {Parts: parts}})
+				}
 			}
 			for name, sup := range r.Supported {
 				if f, ok := compat.StringToJSFeature[name]; ok {
